@@ -745,6 +745,32 @@ pub mod verif {
             format!("{:?}", self.0)
         }
 
+        /// Structured contents: transitions `(time, type index)`, types, leap-second records
+        /// `(time, correction)` and the footer rule (see `TransitionRule::verif_parts`).
+        #[allow(clippy::type_complexity)]
+        pub fn parts(
+            &self,
+        ) -> (
+            Vec<(i64, usize)>,
+            Vec<Ltt>,
+            Vec<(i64, i32)>,
+            Option<(Ltt, Option<(Ltt, (u8, u16, u8, u8), i32, (u8, u16, u8, u8), i32)>)>,
+        ) {
+            (
+                self.0
+                    .transitions
+                    .iter()
+                    .map(|t| (t.unix_leap_time, t.local_time_type_index))
+                    .collect(),
+                self.0.local_time_types.iter().map(ltt).collect(),
+                self.0.leap_seconds.iter().map(|l| (l.unix_leap_time, l.correction)).collect(),
+                self.0.extra_rule.as_ref().map(|r| {
+                    let (std, alt) = r.verif_parts();
+                    (ltt(&std), alt.map(|(dst, sd, st, ed, et)| (ltt(&dst), sd, st, ed, et)))
+                }),
+            )
+        }
+
         /// Local time type in force at a Unix time.
         pub fn at(&self, unix_time: i64) -> Result<Ltt, String> {
             self.0.find_local_time_type(unix_time).map(ltt).map_err(|e| format!("{:?}", e))
